@@ -407,3 +407,68 @@ def inverse_cases(onsets, durs, nrows, kinds=("beat", "div", "both"), voices=(Fa
                         yield dict(kind=kind, rows=[["%d/%d" % (o.numerator, o.denominator), "%d/%d" % (d.numerator, d.denominator), p]
                                                     for (o, d), p in zip(combo, pt)],
                                    divs=base * m, voice=voice, shift="%d/%d" % (shift.numerator, shift.denominator))
+
+
+# ---------------------------------------------------------------------------------------------
+# inverse direction with a time signature: note_array_to_score builds measures (and a pickup measure)
+
+# (source of the time signature, beats, beat type): ts_beats / ts_beat_type columns, the time_sigs argument,
+# estimate_time=True (4/4).  Without the columns the function takes a beat for a quarter (documented), so the
+# argument forms are enumerated with a beat type of 4 only.
+INVM_TS = [["cols", 3, 4], ["cols", 2, 4], ["cols", 6, 8], ["cols", 2, 2], ["arg", 3, 4], ["arg", 4, 4], ["est", 4, 4]]
+INVM_PICKUP = [F(0), F(1, 2), F(1), F(3, 2)]           # length of the pickup measure in beats (0 = none)
+INVM_START = [F(0), F(1, 2), F(1), F(3, 2), F(2), F(7, 2)]  # position of a row in beats after division 0
+INVM_DUR = [F(0), F(1, 2), F(1), F(5, 2), F(4)]
+INVM_START3 = [F(0), F(1, 2), F(1), F(2)]
+INVM_DUR3 = [F(1, 2), F(1), F(5, 2)]
+INVM_TS_TRIP = [["cols", 3, 4], ["cols", 6, 8], ["arg", 4, 4]]
+INVM_PICKUP_TRIP = [F(0), F(1, 3), F(2, 3), F(1), F(4, 3)]
+INVM_START_TRIP = [F(0), F(1, 3), F(2, 3), F(1), F(2)]
+INVM_DUR_TRIP = [F(1, 3), F(2, 3), F(1), F(2)]
+INVM_PITCH = {1: [(60,)], 2: [(60, 64), (61, 61)], 3: [(60, 64, 67)]}
+
+
+def fstr(x):
+    return "%d/%d" % (x.numerator, x.denominator)
+
+
+def invm_voice(mode, k):
+    """voice of row k: mode 0 = no voice column, 1 = voices 1, 2 alternating by row, 2 = every row in voice 1"""
+    return None if mode == 0 else (1 + k % 2 if mode == 1 else 1)
+
+
+def inverse_measure_cases(ts_list, pickups, starts, durs, nrows, kinds=("both", "beat", "div"), voices=(0, 1, 2), mults=(1,)):
+    """note arrays of `nrows` rows (sorted, with repetition) placed on a timeline whose division 0 is the start of
+    a pickup measure of `pickup` beats (onset_beat = start - pickup, onset_div = start x divisions per beat).
+    Preconditions (generator side):
+      - the pickup is shorter than a measure and, when there is one, at least one row starts inside it (otherwise
+        the array does not state it);
+      - a zero-duration row (grace note) has a row of positive duration at its onset in its voice (create_part
+        documents that grace notes without a main note are removed), so it needs a voice column;
+      - beat-only arrays: the beat is a quarter (documented), beat type 4; division-only arrays have no beat
+        onsets, hence no pickup."""
+    from itertools import combinations_with_replacement
+
+    rows = inverse_rows(starts, durs)
+    for src, nb, bt in ts_list:
+        q = F(4, bt)
+        for P in pickups:
+            if P >= nb:
+                continue
+            for combo in combinations_with_replacement(rows, nrows):
+                if P > 0 and not any(s < P for s, _d in combo):
+                    continue
+                vals = [x * q for r in combo for x in r] + [P * q]
+                base = lcm_den(vals)
+                for pt in INVM_PITCH[nrows]:
+                    for kind in kinds:
+                        if (kind == "beat" and bt != 4) or (kind == "div" and P > 0):
+                            continue
+                        for vm in voices:
+                            if any(d == 0 and not (vm and any(d2 > 0 and s2 == s and invm_voice(vm, j) == invm_voice(vm, k)
+                                                                for j, (s2, d2) in enumerate(combo)))
+                                   for k, (s, d) in enumerate(combo)):
+                                continue
+                            for m in (mults if kind != "beat" else (1,)):
+                                yield dict(kind=kind, ts=[nb, bt], src=src, pickup=fstr(P), voice=vm, divs=base * m,
+                                           rows=[[fstr(s - P), fstr(d), p] for (s, d), p in zip(combo, pt)])
